@@ -381,7 +381,7 @@ affineTransform (
 template <class T>
 IMATH_HOSTDEVICE IMATH_CONSTEXPR14 bool
 findEntryAndExitPoints (
-    const Line3<T>& r, const Box<Vec3<T>>& b, Vec3<T>& entry, Vec3<T>& exit)
+    const Line3<T>& ray, const Box<Vec3<T>>& b, Vec3<T>& entry, Vec3<T>& exit)
     IMATH_NOEXCEPT
 {
     if (b.isEmpty ())
@@ -391,6 +391,34 @@ findEntryAndExitPoints (
         //
 
         return false;
+    }
+
+    //
+    // Only the direction of ray.dir matters, not its length.  If all of
+    // its components are smaller than one, scale them up by a power of
+    // two (which is exact) so that the largest is at least one.  An axis
+    // whose plane distances would overflow is treated below as parallel
+    // to its slab; with a direction of ordinary size that only happens
+    // when the component really is negligible, whereas with a direction
+    // made of denormals it discarded constraints that decide the result
+    // (and disagreed with intersects()).
+    //
+
+    Line3<T> r (ray);
+
+    {
+        T m = abs (r.dir.x);
+        if (abs (r.dir.y) > m) m = abs (r.dir.y);
+        if (abs (r.dir.z) > m) m = abs (r.dir.z);
+
+        if (m > 0 && m < 1)
+        {
+            int e = 0;
+            std::frexp (m, &e);
+            r.dir.x = std::ldexp (r.dir.x, 1 - e);
+            r.dir.y = std::ldexp (r.dir.y, 1 - e);
+            r.dir.z = std::ldexp (r.dir.z, 1 - e);
+        }
     }
 
     //
